@@ -17,6 +17,7 @@ From BNP Require Import Proofs.C13.
 From BNP Require Import Corr.C13.
 From BNP Require Import Proofs.C13_corr.
 From BNP Require Import Proofs.C13_q.
+From BNP Require Import Proofs.C13_big.
 From BNP Require Import Gen.C13.
 From BNP Require Import Bridge.C13.
 Import ListNotations.
@@ -160,7 +161,7 @@ Print Assumptions C13_count_kmers_partial.
    For the property's own input class — a ragged collection of sequences (k_kind = 0: freshly built array,
    non-contiguous view, one sequence as a 1-d array) — inside the domain (distinct alphabet letters, letters in
    range, 1 <= k <= w <= 31, total letters >= w): if the implementation's answer equals the model's (model_ok)
-   then it is the property's value (spec_ok).  EVERY window >= 1 (the repaired slice is in /repo), all eight
+   then it is the property's value (spec_ok).  EVERY window >= 1 (the repaired slice is in /repo), all ten
    observed operations: k-mers incl. their rendering, minimizers, string match, motif scores (exact, and the
    real-valued tolerance test), both counts incl. labels, encode/to_string. *)
 Theorem C13_model_agrees_implies_property :
@@ -205,6 +206,24 @@ Theorem C13_motif_scores_integer_instance :
   forall stopf cols rows, gget_motif_scores_with 0 Z.add stopf cols rows = get_motif_scores_with stopf cols rows.
 Proof. exact gget_motif_scores_Z. Qed.
 Print Assumptions C13_motif_scores_integer_instance.
+
+(* k-mer counts with one integer weight per k-mer (count_encoded(kmers, weights=..)) = weighted bincount of the row-local k-mers *)
+Theorem C13_count_weighted :
+  forall n k rows weights, 1 <= k -> (n = 4 -> k <= 32 /\ Forall (fun x => 0 <= x < 4) (concat rows)) ->
+    count_weighted_with stop_fixed n k rows weights = wbincount (n ^ k) (concat (spec_kmers n (Z.to_nat k) rows)) weights.
+Proof. exact count_weighted_fixed. Qed.
+Print Assumptions C13_count_weighted.
+
+(* Very long rows (row_i = pattern_i repeated reps_i times; any number of rows, any total length — in particular more
+   than the 10^6 values at which count_encoded starts to count in chunks): count_kmers(rows, 1), both as the
+   library's algorithm (model) and as the property's value (spec), is the closed form the check evaluates,
+   sum_i reps_i * bincount(pattern_i). *)
+Theorem C13_count_kmers_long_rows :
+  forall n pats reps, Forall (fun r => 0 <= r) reps -> Forall (Forall (fun x => 0 <= x < n)) pats ->
+    count_kmers_flat_with stop_fixed n 1 (expand pats reps) = big_counts n pats reps
+    /\ bincount (n ^ 1) (concat (spec_kmers n 1 (expand pats reps))) = big_counts n pats reps.
+Proof. exact count_kmers_big. Qed.
+Print Assumptions C13_count_kmers_long_rows.
 
 (* Source tie: the arithmetic regenerated from /repo on this run (Gen/C13.v, written by translate/run.py through
    translate/gen_c13.py) is the arithmetic the theorems above are about:
@@ -278,4 +297,13 @@ Example C13_nonvacuous_link :
               k_pat := []; k_cols := []; k_err := false; k_out := [[0;1;3]; []; [2]];
               k_labels := [[65]; [67]; [84]; [71]] |} in
   in_domain c = true /\ k_kind c = 0 /\ model_ok c = true /\ spec_ok c = true.
+Proof. vm_compute. repeat split; reflexivity. Qed.
+
+Example C13_nonvacuous_long_rows :
+  let pats := [[0;1;2;3;3]; [2;0]; [3]] in let reps := [3; 2; 1] in
+  expand pats reps = [[0;1;2;3;3; 0;1;2;3;3; 0;1;2;3;3]; [2;0;2;0]; [3]]
+  /\ big_counts 4 pats reps = [5; 3; 5; 7]
+  /\ count_kmers_flat_with stop_fixed 4 1 (expand pats reps) = [5; 3; 5; 7]
+  /\ big_counts 4 [[0;1;2;3;3]; [2;0]; [3]] [100000; 250000; 1] = [350000; 100000; 350000; 200001]
+  /\ count_weighted_with stop_fixed 4 2 [[0;1;3]; [2]; [1;0]] [5; 7; 11] = [0;11;0;0; 5;0;0;0; 0;0;0;0; 0;7;0;0].
 Proof. vm_compute. repeat split; reflexivity. Qed.
